@@ -151,7 +151,7 @@ class Registry:
 
     def real_class(self, name):
         s = self.schemas.get(name)
-        if s is None:
+        if s is None or not s.path:
             return None
         mod, qn = s.path.split(':')
         obj = importlib.import_module(mod)
